@@ -51,7 +51,7 @@ SCALARS = [
     ('float', 8, T.FloatType, lambda: float(rng.randrange(-2**20, 2**20)) / 8), ('int', 9, T.Int32Type, lambda: rng.choice([0, -1, 2**31-1, -2**31, rng.randrange(-2**31, 2**31)])),
     ('timestamp', 0xB, T.DateType, lambda: datetime.datetime(1970, 1, 1) + datetime.timedelta(milliseconds=rng.randrange(-62135596800000 + 10**9, 253402300799000 - 10**9))),
     ('uuid', 0xC, T.UUIDType, lambda: uuid.UUID(int=rng.getrandbits(128))), ('varchar', 0xD, T.UTF8Type, lambda: rng.choice(['', 'a', 'é中\U0001f600', 'x' * 70])),
-    ('varint', 0xE, T.IntegerType, lambda: rng.choice([0, -1, 255, 256, -129, rng.randrange(-2**90, 2**90)])), ('timeuuid', 0xF, T.TimeUUIDType, lambda: uuid.uuid1(node=rng.getrandbits(48), clock_seq=rng.getrandbits(14))),
+    ('varint', 0xE, T.IntegerType, lambda: rng.choice([0, -1, 255, 256, -129, rng.randrange(-2**90, 2**90)])), ('timeuuid', 0xF, T.TimeUUIDType, lambda: util.uuid_from_time(rng.randrange(0, 4 * 10**9), rng.getrandbits(48), rng.getrandbits(14))),
     ('inet', 0x10, T.InetAddressType, lambda: rng.choice(['127.0.0.1', '::1', '10.1.2.3', '2001:db8::1'])), ('date', 0x11, T.SimpleDateType, lambda: util.Date(rng.randrange(-2**31, 2**31))),
     ('time', 0x12, T.TimeType, lambda: util.Time(rng.randrange(86400 * 10**9))), ('smallint', 0x13, T.ShortType, lambda: rng.randrange(-2**15, 2**15)), ('tinyint', 0x14, T.ByteType, lambda: rng.randrange(-128, 128)),
     ('duration', 0x15, T.DurationType, lambda: util.Duration(rng.randrange(-50, 50), rng.randrange(-400, 400), rng.randrange(-10**12, 10**12))),
@@ -190,28 +190,30 @@ if mode == 'rows':
                     fails.append('murmur3(%r): C %d, Python %d' % (k, cm(k), pm(k)))
     print(json.dumps({'n': n, 'distinct': len(seen), 'fails': fails[:3]}))
 else:
-    # digest mode: results of the (pure or compiled) .py modules on fixed inputs
-    out = hashlib.sha256()
+    # digest mode: results of the (pure or compiled) .py modules on fixed inputs, one short hash per input so that the first difference can be named
+    items = []
     N = 300 if tier == 'quick' else 5000
     compiled = [m for m in ('cqltypes', 'protocol', 'util', 'query', 'metadata') if getattr(sys.modules.get('cassandra.' + m), '__file__', '').endswith('.so')]
-    for _ in range(N):
+    def h(label, payload):
+        items.append([label, hashlib.sha1(payload).hexdigest()[:10]])
+    for i in range(N):
         body = rows_case()
         try:
             m = P._ProtocolHandler.decode_message(4, {}, 1, 0, 8, body, None, None)
-            out.update(json.dumps(canon(m.parsed_rows), sort_keys=True).encode())
+            h('ROWS body %s' % body.hex()[:120], json.dumps(canon(m.parsed_rows), sort_keys=True).encode())
         except Exception as e:
-            out.update(type(e).__name__.encode())
+            h('ROWS body %s' % body.hex()[:120], type(e).__name__.encode())
         n += 1
     for nm, code, cls, g in SCALARS:
         for _ in range(50):
             v = g()
             b = cls.serialize(v, 4)
-            out.update(b + repr(canon(cls.deserialize(b, 4))).encode())
+            h('%s value %r' % (nm, v), b + repr(canon(cls.deserialize(b, 4))).encode())
             n += 1
-    from cassandra.metadata import protect_name, Murmur3Token
+    from cassandra.metadata import protect_name
     for w in ['a', 'A b', 'select', 'x"y', 'limit']:
-        out.update(protect_name(w).encode())
-    print(json.dumps({'n': n, 'digest': out.hexdigest(), 'compiled': compiled}))
+        h('protect_name(%r)' % w, protect_name(w).encode())
+    print(json.dumps({'n': n, 'items': items, 'compiled': compiled}))
 '''
 
 
@@ -253,8 +255,10 @@ def compiled_vs_pure(tier, seed):
                 extra = '; compiled .py modules %s' % ','.join(d1['compiled'])
                 if not d1['compiled']:
                     extra += ' (none of the .py modules compiled: comparison vacuous)'
-                if d1['digest'] != d2['digest']:
-                    fails.append('the compiled builds of %s give different results (digest %s) than the pure modules (digest %s) on the same %d inputs' % (d1['compiled'], d1['digest'][:16], d2['digest'][:16], d1['n']))
+                diff = [(a, b) for a, b in zip(d1['items'], d2['items']) if a != b]
+                if len(d1['items']) != len(d2['items']) or diff:
+                    first = diff[0] if diff else (['(different number of inputs)', ''], ['', ''])
+                    fails.append('the compiled builds of %s disagree with the pure modules on %d of %d inputs; first: compiled %s / pure %s' % (d1['compiled'], len(diff), len(d1['items']), first[0], first[1]))
             except Exception:
                 fails.append('digest comparison produced no result: %s | %s' % (w1.stderr[-400:], w2.stderr[-400:]))
         return {'name': 'compiled-versus-pure', 'kind': 'bounded', 'cases': n, 'evaluations': n, 'distinct_nontrivial': distinct, 'build_s': round(t_build, 1), 'built': sorted(built),
